@@ -863,6 +863,26 @@ func exploreWide() {
 		}
 	})
 	R.Class("wide/cases (every length 32..64)", int64(len(cases)))
+	// call history: every ordered pair of lengths (a reduction of length l1 with all-ones content, immediately
+	// followed by one of length l2) must give the same result as the second call alone. Run sequentially in
+	// one goroutine so that the history is exactly the one described.
+	nseq := 0
+	for l1 := 32; l1 <= 64; l1++ {
+		for l2 := 32; l2 <= 64; l2++ {
+			a := bytes.Repeat([]byte{0xff}, l1)
+			b := make([]byte, l2)
+			for i := range b {
+				b[i] = byte(i*37 + l2)
+			}
+			mk(poison).SetWideBytes(a)
+			nseq++
+			if m := run(b); m != "" {
+				R.Fail(fmt.Sprintf("field/SetWideBytes/history/len %d after len %d", l2, l1), "wideseq", map[string]any{"first_len": l1, "bytes": mc.Hex(b), "mismatch": "after a call of length " + fmt.Sprint(l1) + ": " + m}, nil)
+			}
+		}
+	}
+	R.T(int64(nseq))
+	R.Class("wide/ordered pairs of lengths (call history)", int64(nseq))
 	R.Sample("wide", map[string]any{"len": 48, "bytes": "ff*48", "expect": hexv(ref.ModP(ref.OS2IP(bytes.Repeat([]byte{0xff}, 48))))})
 	// out-of-range lengths: recorded, not judged (the statement is silent)
 	for _, L := range []int{0, 1, 31, 65, 70} {
